@@ -96,7 +96,7 @@ def run(pid, tier, programs=None):
     known = [k for k in C.load_known().get("findings", []) if k.get("property") == pid]
     with C.Lock():
         lean_ok, names = C.lean_phase(res, pid, gen_fn=regen_memorder if pid == "C03" else None, thorough_modules=["Cuckoo.Model.Proto"],
-                                      extra_props=["C01Conc"] if pid == "C01" else [])
+                                      extra_props={"C01": ["C01Conc"], "C04": ["C04Live"]}.get(pid, []))
     if pid == "C03":
         tsan_runs(res, tier, known)
     out = k3.explore(tier, C.seed(), programs=programs)
@@ -108,7 +108,7 @@ def run(pid, tier, programs=None):
                          "config": c["config"], "harness_input": c["input"], "tail": c["tail"]})
     if out["rejects"]:
         res.add_broken("K3(i): %d recorded synchronisation trace(s) are rejected by the Lean protocol model Cuckoo.Proto.accept "
-                       "(the code no longer follows the protocol the theorems are about)" % len(out["rejects"]),
+                       "or by rule L of Model/ProtoLive.lean (the code no longer follows the protocol the theorems are about)" % len(out["rejects"]),
                        json.dumps(out["rejects"][:3]))
     mine = [f for f in out["failures"] if pid in classify(f["why"])]
     seen = set()
@@ -142,7 +142,8 @@ def run(pid, tier, programs=None):
         "per_program": out["per_program"],
     })
     res.assumptions += [
-        "the protocol theorems are about traces accepted by Cuckoo.Proto.accept; K3(i) checks that recorded traces of /repo are accepted",
+        "the protocol theorems are about traces accepted by Cuckoo.Proto.accept (and, for the retry bound, rule L of Model/ProtoLive.lean); "
+        "K3(i) checks that recorded traces of /repo are accepted by both",
         "the scheduler makes executions sequentially consistent; hardware reordering is outside K3 (memory orders are checked by T-C)",
         "a lock-protected block is treated as atomic (two-phase locking reduction, not mechanised)",
     ]
